@@ -444,7 +444,7 @@ class World(WorldBase):
             self.drop_last()
             raise Violation(f"C05/producer-raised:{tag}", f"{exc[0]}: {exc[1]} for {self._describe(op)}")
         if res is not None:
-            raise Violation(f"C05/producer-returned:{tag}", repr(res)[:100])
+            self.ctx.probe("producer_returned_a_value")        # the property speaks about the file only
         rows = self.judge_file(op, cfg, tag)
         self.gen_no[path] = self.gen_no.get(path, 0) + 1
         self.files[path] = {"cfg": op["cfg"], "kind": kind, "frames": rows, "weights": False,
@@ -639,8 +639,9 @@ class World(WorldBase):
         want = expected_read(rows, n_t, eff, fi["weights"])
         if not isinstance(res, np.ndarray):
             raise Violation(f"C05/frame-shape:{tag}", f"returned {type(res).__name__}")
-        if res.dtype != want.dtype:
-            raise Violation(f"C05/frame-dtype:{tag}", f"dtype {res.dtype}, expected {want.dtype}")
+        if res.dtype.kind != want.dtype.kind:
+            # integers for neighbour lists (they are indices), floats for weights; the width is not pinned
+            raise Violation(f"C05/frame-dtype:{tag}", f"dtype {res.dtype}, expected kind of {want.dtype}")
         if res.shape != want.shape:
             raise Violation(f"C05/frame-shape:{tag}",
                             f"shape {res.shape}, expected {want.shape} (Nmax={nmax}, max cn={max(r[1] for r in rows)})")
@@ -738,7 +739,7 @@ class World(WorldBase):
     def invariants(self):
         self.check_acked()
         for got, want, what, tag in self.delivered:
-            if got.dtype != want.dtype or got.shape != want.shape or not np.array_equal(got, want):
+            if got.dtype.kind != want.dtype.kind or got.shape != want.shape or not np.array_equal(got, want):
                 raise Violation(f"C05/delivered-frame-changed:{tag}",
                                 f"the array returned earlier for {what} no longer holds that frame (a later read changed it)")
         for h, d in self.handles.items():
